@@ -4,6 +4,8 @@
 # scratch copy of the simulator is built against it (used while background runs read /repo).
 set -u
 PATCH="$(realpath "$1")"; shift
+# one user of the shared scratch target directory at a time
+mkdir -p /tmp/mt; exec 9>/tmp/mt/target.lock; flock 9
 D=/tmp/mt/$(basename "$PATCH" .patch)-$$
 mkdir -p "$D/verif"
 git -C /repo worktree add -q --detach "$D/repo" HEAD || exit 2
